@@ -10,6 +10,7 @@ Decides (symbolic / finite-table interpretation of makepath.cpp):
                     manhattanDist(curr,target) + k*segmentPenalty with k <= the free-plane minimum bend count over the allowed
                     arrival directions (so the estimate is admissible), for every abstract input incl. last == nullptr
   TURN-PRUNE-GUARD  the orthogonal search skips a turning edge only under a condition that also exempts end points
+  TURN-PRUNE-MIRROR the horizontal and vertical turn-pruning blocks are mirror images (orientation independence)
 Not decided: completeness of the scan-line visibility graph; that every produced segment is axis-parallel; optimality of the search.
 """
 import copy
@@ -311,6 +312,28 @@ def rule_turn_prune(chk, prog):
         raise AnalysisBroken("no turn-pruning condition found in AStarPathPrivate::search")
 
 
+def rule_turn_prune_mirror(chk, prog):
+    from ..sibling.mirror import mirror_blocks_equal
+    r = chk.rule("TURN-PRUNE-MIRROR", "the two turn-pruning blocks of AStarPathPrivate::search (turn onto a vertical edge / onto a horizontal "
+                 "edge) are mirror images of each other under x<->y, XDIM<->YDIM, X?_EDGE<->Y?_EDGE: transposing a scene prunes the "
+                 "transposed set of edges, so route costs do not depend on the orientation of the drawing", floor=1)
+    fn = prog.fn("Avoid::AStarPathPrivate::search")
+    inner = [n for n in fn.nodes() if n.get("k") == "IfStmt" and
+             any(str(x.get("ref", "")).endswith("orthogVisPropFlags") for x in walk(n["cond"]))]
+    ids = {n["id"] for n in inner}
+    tops = [n for n in fn.nodes() if n.get("k") == "IfStmt" and n.get("then") is not None and
+            sum(1 for x in walk(n["then"]) if x.get("id") in ids) == 2]
+    if len(tops) != 2:
+        raise AnalysisBroken("expected two turn-pruning blocks in AStarPathPrivate::search, found %d" % len(tops))
+    ok, diff = mirror_blocks_equal(tops[0], tops[1], "x/y+dims")
+    r.count()
+    if ok:
+        r.ok("search: turn pruning x/y", fn.loc(tops[0]))
+    else:
+        r.bad("search: turn pruning x/y", fn.loc(tops[0]), "the blocks at %s and %s are not mirror images: `...%s` vs `...%s`" % (
+            fn.loc(tops[0]), fn.loc(tops[1]), diff[0][-100:], diff[1][-100:]))
+
+
 def rule_inside_strict(chk, prog):
     """Node::isInsideShape decides whether a connector end point gets pass-through vertices in the orthogonal visibility graph."""
     from ..microai.interp import default_obj
@@ -384,3 +407,4 @@ def run(chk):
     rule_dir_tables(chk, prog)
     rule_heuristic(chk, prog)
     rule_turn_prune(chk, prog)
+    rule_turn_prune_mirror(chk, prog)
